@@ -198,7 +198,14 @@ theorem missing_all_none (s : State) (p b k : Nat) (h : ∀ x, 0 < x → s.conn 
     · simp [h0]
   rw [this, length_filter_pos_range]
 
-/-! ### the invariant of the atomic system -/
+/-! ### the invariant -/
+
+/-- 1 if the accept goroutine of j has stored a connection with id k and has
+not yet decremented `need[k]`. -/
+def sbit (s : State) (j k : Nat) : Nat :=
+  match s.infl j with
+  | .stored _ k' => if k' = k then 1 else 0
+  | _ => 0
 
 /-- i dials j: peers dial the leader and every higher id. -/
 def Dials (i j : Nat) : Prop := 0 < i ∧ (j = 0 ∨ i < j)
@@ -238,7 +245,7 @@ structure LeaderInv (c : Cfg) (s : State) : Prop where
   knownNodup : (s.known 0).Nodup
   lenKnown : (s.known 0).length + missing s 0 c.n 0 = c.n
   initial : s.phase 0 = .init → s.acc 0 = false ∧ ∀ q k, s.conn 0 q k = none
-  started : s.phase 0 ≠ .init → s.acc 0 = true ∧ ∀ k, k < c.m → s.need 0 k = missing s 0 c.n k
+  started : s.phase 0 ≠ .init → s.acc 0 = true ∧ ∀ k, k < c.m → s.need 0 k = missing s 0 c.n k + sbit s 0 k
   waited : ∀ k, k < roundsDone c (s.phase 0) → k < c.m → s.need 0 k = 0
   infoRest : ∀ r, s.phase 0 = .info r → r.Nodup ∧ ∀ x ∈ r, 0 < x ∧ x < c.n
   mail0 : s.mail 0 = none
@@ -254,7 +261,7 @@ structure ActiveInv (c : Cfg) (s : State) (i k : Nat) (todo : List Nat) : Prop w
   dialed : ∃ pre, (k < c.m → targets s i k = pre ++ todo) ∧
     ∀ j k', Dials i j → ((s.conn i j k').isSome ↔
       (j < c.n ∧ ((j = 0 ∧ k' = 0) ∨ (k' < k ∧ k' < c.m) ∨ (k' = k ∧ k < c.m ∧ j ∈ pre))))
-  need : ∀ k', k' < c.m → s.need i k' = missing s i i k'
+  need : ∀ k', k' < c.m → s.need i k' = missing s i i k' + sbit s i k'
   waited : ∀ k', k' < k → k' < c.m → s.need i k' = 0
 
 structure PeerInv (c : Cfg) (s : State) (i : Nat) : Prop where
@@ -264,25 +271,35 @@ structure PeerInv (c : Cfg) (s : State) (i : Nat) : Prop where
     s.conn 0 i 0 = none ∧ s.mail i = none ∧ s.acc i = false ∧ s.known i = [0, i] ∧
     ¬ infoSentTo (s.phase 0) i
   hello : s.phase i = .hello → (∀ q k, s.conn i q k = joinTable i q k) ∧
-    (∀ j k, s.pend j i k = true ↔ (j = 0 ∧ k = 0 ∧ s.conn 0 i 0 = none)) ∧
+    (∀ j k, s.pend j i k = true ↔ (j = 0 ∧ k = 0 ∧ s.conn 0 i 0 = none ∧ s.infl 0 ≠ .taken i 0)) ∧
     s.acc i = false ∧ s.known i = [0, i] ∧
     (s.mail i ≠ none ↔ infoSentTo (s.phase 0) i) ∧ (∀ l, s.mail i = some l → GoodMail c i l)
   notInfo : ∀ r, s.phase i ≠ .info r
   runLt : ∀ k todo, s.phase i = .run k todo → k < c.m
   active : ∀ k todo, prog c (s.phase i) = some (k, todo) → ActiveInv c s i k todo
 
+/-- What holds while the accept goroutine of j is inside `acceptConn`. -/
+def InflInv (c : Cfg) (s : State) (j : Nat) : Prop :=
+  match s.infl j with
+  | .none => True
+  | .taken i k => Dials i j ∧ (s.conn i j k).isSome ∧ s.conn j i k = none ∧ s.pend j i k = false ∧
+      j < c.n ∧ s.acc j = true ∧ (j = 0 → k = 0 → s.phase i ≠ .joined)
+  | .stored i k => Dials i j ∧ (s.conn j i k).isSome ∧ j < c.n ∧ s.acc j = true
+
 structure Inv (c : Cfg) (s : State) : Prop where
   notBad : s.bad = false
-  noInfl : ∀ p, s.infl p = none
+  infl : ∀ j, InflInv c s j
   outside : ∀ p, c.n ≤ p → s.phase p = .init
   slot : ∀ p q k cn, s.conn p q k = some cn → cn = wire p q k ∧ p ≠ q ∧ p < c.n ∧ q < c.n ∧ k < c.m
   accSlot : ∀ i j k, Dials i j → (s.conn j i k).isSome → (s.conn i j k).isSome ∧ s.pend j i k = false
   pendSlot : ∀ i j k, s.pend j i k = true →
     Dials i j ∧ (s.conn i j k).isSome ∧ s.conn j i k = none ∧ j < c.n
   /-- no connection is lost: a dialled connection is pending or stored at the
-  acceptor (connection 0 to the leader: or its hello is still to be sent) -/
+  acceptor or held by the acceptor's accept goroutine (connection 0 to the
+  leader: or its hello is still to be sent) -/
   dialSlot : ∀ i j k, Dials i j → (s.conn i j k).isSome →
-    s.pend j i k = true ∨ (s.conn j i k).isSome ∨ (j = 0 ∧ k = 0 ∧ s.phase i = .joined)
+    s.pend j i k = true ∨ (s.conn j i k).isSome ∨ (j = 0 ∧ k = 0 ∧ s.phase i = .joined) ∨
+      s.infl j = .taken i k
   leader : LeaderInv c s
   peer : ∀ i, 0 < i → i < c.n → PeerInv c s i
 
@@ -388,29 +405,52 @@ theorem ActiveInv.targets_nodup {c : Cfg} {s : State} {i k : Nat} {todo : List N
   · simp
   · exact List.Nodup.sublist List.filter_sublist h.knownNodup
 
-/-- `dialSlot` survives a step that touches neither tables nor pending sets
-and does not move a party out of `joined`. -/
+/-- `dialSlot` survives a step that touches neither tables, pending sets nor
+accept goroutines and does not move a party out of `joined`. -/
 theorem Inv.dialSlot_frame {c : Cfg} {s s' : State} (h : Inv c s) (hconn : s'.conn = s.conn)
-    (hpend : s'.pend = s.pend) (hph : ∀ i, s.phase i = .joined → s'.phase i = .joined) :
+    (hpend : s'.pend = s.pend) (hinfl : s'.infl = s.infl)
+    (hph : ∀ i, s.phase i = .joined → s'.phase i = .joined) :
     ∀ i j k, Dials i j → (s'.conn i j k).isSome →
-      s'.pend j i k = true ∨ (s'.conn j i k).isSome ∨ (j = 0 ∧ k = 0 ∧ s'.phase i = .joined) := by
+      s'.pend j i k = true ∨ (s'.conn j i k).isSome ∨ (j = 0 ∧ k = 0 ∧ s'.phase i = .joined) ∨
+        s'.infl j = .taken i k := by
   intro i j k hd hs
   rw [hconn] at hs ⊢
-  rw [hpend]
-  rcases h.dialSlot i j k hd hs with e | e | ⟨e1, e2, e3⟩
+  rw [hpend, hinfl]
+  rcases h.dialSlot i j k hd hs with e | e | ⟨e1, e2, e3⟩ | e
   · exact Or.inl e
   · exact Or.inr (Or.inl e)
-  · exact Or.inr (Or.inr ⟨e1, e2, hph i e3⟩)
+  · exact Or.inr (Or.inr (Or.inl ⟨e1, e2, hph i e3⟩))
+  · exact Or.inr (Or.inr (Or.inr e))
 
-/-- Reachable states of the atomic system. -/
-inductive ReachA (c : Cfg) : State → Prop where
-  | init : ReachA c (init c)
-  | step {s s' : State} (e : Ev) : ReachA c s → e.atomic = true → step c s e = some s' → ReachA c s'
+/-- `InflInv` survives a step that touches neither tables, pending sets,
+accept goroutines nor `acc`, and does not move a party into `joined`. -/
+theorem Inv.infl_frame {c : Cfg} {s s' : State} (h : Inv c s) (hconn : s'.conn = s.conn)
+    (hpend : s'.pend = s.pend) (hinfl : s'.infl = s.infl) (hacc : ∀ j, s.acc j = true → s'.acc j = true)
+    (hph : ∀ i, s'.phase i = .joined → s.phase i = .joined) : ∀ j, InflInv c s' j := by
+  intro j
+  have := h.infl j
+  unfold InflInv at this ⊢
+  rw [hinfl, hconn, hpend]
+  cases hi : s.infl j with
+  | none => trivial
+  | taken i k =>
+    rw [hi] at this
+    obtain ⟨h1, h2, h3, h4, h5, h6, h7⟩ := this
+    exact ⟨h1, h2, h3, h4, h5, hacc j h6, fun e1 e2 e3 => h7 e1 e2 (hph i e3)⟩
+  | stored i k =>
+    rw [hi] at this
+    obtain ⟨h1, h2, h3, h4⟩ := this
+    exact ⟨h1, h2, h3, hacc j h4⟩
 
-/-- Reachable states of the code as it is (accept in two steps). -/
-inductive ReachF (c : Cfg) : State → Prop where
-  | init : ReachF c (init c)
-  | step {s s' : State} (e : Ev) : ReachF c s → e.faithful = true → step c s e = some s' → ReachF c s'
+/-- Reachable states of the code as it is. -/
+inductive Reach (c : Cfg) : State → Prop where
+  | init : Reach c (init c)
+  | step {s s' : State} (e : Ev) : Reach c s → e.real = true → step c s e = some s' → Reach c s'
+
+/-- Reachable states of the code before the repair (signal before store). -/
+inductive ReachOld (c : Cfg) : State → Prop where
+  | init : ReachOld c (init c)
+  | step {s s' : State} (e : Ev) : ReachOld c s → e.old = true → step c s e = some s' → ReachOld c s'
 
 /-! ### frame lemmas: what each part of the invariant reads -/
 
@@ -421,7 +461,8 @@ theorem targets_congr (s s' : State) (p k : Nat) (h : s'.known p = s.known p) :
 theorem LeaderInv.congr {c : Cfg} {s s' : State} (h : LeaderInv c s)
     (hph : s'.phase 0 = s.phase 0) (hnp : s'.np 0 = s.np 0) (hk : s'.known 0 = s.known 0)
     (hconn : ∀ x k, s'.conn 0 x k = s.conn 0 x k) (hacc : s'.acc 0 = s.acc 0)
-    (hneed : ∀ k, s'.need 0 k = s.need 0 k) (hmail : s'.mail 0 = s.mail 0) : LeaderInv c s' := by
+    (hneed : ∀ k, s'.need 0 k = s.need 0 k) (hmail : s'.mail 0 = s.mail 0)
+    (hsb : ∀ k, sbit s' 0 k = sbit s 0 k) : LeaderInv c s' := by
   have hm : ∀ b k, missing s' 0 b k = missing s 0 b k :=
     fun b k => missing_congr _ _ _ _ _ (fun y _ _ => hconn y k)
   refine ⟨?_, ?_, ?_, ?_, ?_, ?_, ?_, ?_, ?_, ?_⟩
@@ -431,7 +472,7 @@ theorem LeaderInv.congr {c : Cfg} {s s' : State} (h : LeaderInv c s)
   · simpa [hk] using h.knownNodup
   · simpa [hk, hm] using h.lenKnown
   · simpa [hph, hacc, hconn] using h.initial
-  · simpa [hph, hacc, hneed, hm] using h.started
+  · simpa [hph, hacc, hneed, hm, hsb] using h.started
   · simpa [hph, hneed] using h.waited
   · simpa [hph] using h.infoRest
   · simpa [hmail] using h.mail0
@@ -440,7 +481,8 @@ theorem ActiveInv.congr {c : Cfg} {s s' : State} {i k : Nat} {todo : List Nat} (
     (hsent : infoSentTo (s.phase 0) i → infoSentTo (s'.phase 0) i)
     (hmail : s'.mail i = s.mail i) (hacc : s'.acc i = s.acc i) (hnp : s'.np i = s.np i)
     (hk : s'.known i = s.known i) (hconn : ∀ x k, s'.conn i x k = s.conn i x k)
-    (hneed : ∀ k, s'.need i k = s.need i k) : ActiveInv c s' i k todo := by
+    (hneed : ∀ k, s'.need i k = s.need i k) (hsb : ∀ k, sbit s' i k = sbit s i k) :
+    ActiveInv c s' i k todo := by
   have hm : ∀ b k, missing s' i b k = missing s i b k :=
     fun b k => missing_congr _ _ _ _ _ (fun y _ _ => hconn y k)
   refine ⟨h.kle, hsent h.sent, ?_, ?_, ?_, ?_, ?_, ?_, ?_, ?_⟩
@@ -450,7 +492,7 @@ theorem ActiveInv.congr {c : Cfg} {s s' : State} {i k : Nat} {todo : List Nat} (
   · simpa [hk] using h.knownMem
   · simpa [hk] using h.knownNodup
   · simpa [hconn, targets_congr s s' i k hk] using h.dialed
-  · simpa [hneed, hm] using h.need
+  · simpa [hneed, hm, hsb] using h.need
   · simpa [hneed] using h.waited
 
 theorem PeerInv.congr {c : Cfg} {s s' : State} {i : Nat} (h : PeerInv c s i)
@@ -460,20 +502,21 @@ theorem PeerInv.congr {c : Cfg} {s s' : State} {i : Nat} (h : PeerInv c s i)
     (hk : s'.known i = s.known i) (hconn : ∀ x k, s'.conn i x k = s.conn i x k)
     (hconn0 : s'.conn 0 i 0 = s.conn 0 i 0)
     (hpend : ∀ j k, s'.pend j i k = s.pend j i k)
-    (hneed : ∀ k, s'.need i k = s.need i k) : PeerInv c s' i := by
+    (hneed : ∀ k, s'.need i k = s.need i k) (hsb : ∀ k, sbit s' i k = sbit s i k)
+    (htk : s'.infl 0 = .taken i 0 ↔ s.infl 0 = .taken i 0) : PeerInv c s' i := by
   refine ⟨?_, ?_, ?_, ?_, ?_, ?_⟩
   · simpa [hph, hsent, hmail, hacc, hconn, hpend] using h.init
   · simpa [hph, hsent, hmail, hacc, hconn, hpend, hk, hconn0] using h.joined
-  · simpa [hph, hsent, hmail, hacc, hconn, hpend, hk, hconn0] using h.hello
+  · simpa [hph, hsent, hmail, hacc, hconn, hpend, hk, hconn0, htk] using h.hello
   · simpa [hph] using h.notInfo
   · simpa [hph] using h.runLt
   · intro k todo hp
     rw [hph] at hp
-    exact (h.active k todo hp).congr hsent.mpr hmail hacc hnp hk hconn hneed
+    exact (h.active k todo hp).congr hsent.mpr hmail hacc hnp hk hconn hneed hsb
 
 theorem inv_init (c : Cfg) (h : c.Ok) : Inv c (init c) := by
   have := h.n2
-  refine ⟨rfl, fun _ => rfl, fun _ _ => rfl, ?_, ?_, ?_, ?_, ?_, ?_⟩
+  refine ⟨rfl, fun _ => trivial, fun _ _ => rfl, ?_, ?_, ?_, ?_, ?_, ?_⟩
   · intro p q k cn hc; simp [init] at hc
   · intro i j k _ hc; simp [init] at hc
   · intro i j k hc; simp [init] at hc
